@@ -639,6 +639,11 @@ class TextGen:
                     if len(parts) == 2 and not parts[0].startswith(("<", "#", "%")) and "$" not in parts[1]:
                         lines[i] = l.replace(parts[1], "$Zd", 1) if rng.random() < 0.5 else l.replace(parts[1], "${zd}", 1)
                         lines.insert(0, "%%define ZD %s" % parts[1])
+                        if rng.random() < 0.3:
+                            # a second name defined twice with the same text, through a reference
+                            d2 = "%%define Zd2 %s" % rng.choice(["a$Zd", "${zd}/x", "$ZD"])
+                            lines.insert(1, d2)
+                            lines.insert(rng.randrange(2, len(lines) + 1), d2 if rng.random() < 0.6 else d2.replace("Zd2", "ZD2"))
                         break
             if rng.random() < 0.12:
                 # references to environment variables that are set -- to nothing, to blanks, to a word
